@@ -115,6 +115,7 @@ type vzWorld struct {
 	lastErr       map[string]string   // node ident -> last ERROR log line of its engine
 	replayEnabled bool
 	adv           *vzAdv
+	byzVictim     int // the correct node a Byzantine validator's targeted splits are aimed at (-1: not chosen yet)
 	starveNode    int
 	starveKind    string
 	starveData    string           // if set: only frames with this content key (one proposed header and all its copies from other peers) are delayed
@@ -228,7 +229,7 @@ func (w *vzWorld) newLogger() *slog.Logger {
 }
 
 func newVzWorld(s *vsimcore.Sim, cfg vzConfig) *vzWorld {
-	w := &vzWorld{s: s, cfg: cfg, handlerSends: map[string]int{}, handlerCancel: map[int]context.CancelFunc{}, handlerLast: map[int]string{}, lullBehind: map[int]bool{}, lastErr: map[string]string{}, blocked: map[[2]int]bool{}, stalled: map[int]int{}, seenProposals: map[string][]string{}}
+	w := &vzWorld{s: s, cfg: cfg, handlerSends: map[string]int{}, handlerCancel: map[int]context.CancelFunc{}, handlerLast: map[int]string{}, lullBehind: map[int]bool{}, lastErr: map[string]string{}, blocked: map[[2]int]bool{}, stalled: map[int]int{}, seenProposals: map[string][]string{}, byzVictim: -1}
 	privVals := tmconsensustest.DeterministicValidatorsEd25519(cfg.nVal)
 	for i := range privVals {
 		privVals[i].Val.Power = cfg.powers[i]
